@@ -26,17 +26,21 @@ func cutPositions(rt *rapid.T, n int, fields []ref.Field) ([]int, bool) {
 		return out, true
 	}
 	set := map[int]bool{}
-	for i := 0; i < 300; i++ {
+	for i := 0; i < 150; i++ {
 		set[i] = true
+		set[n-1-i] = true // the tail: a decoder that stops early accepts cuts there
 	}
-	for _, f := range fields {
-		for d := -2; d <= 2; d++ {
+	for i, f := range fields {
+		if i%max(1, len(fields)/150) != 0 {
+			continue
+		}
+		for d := -1; d <= 1; d++ {
 			if p := f.Off + d; p >= 0 && p < n {
 				set[p] = true
 			}
 		}
 	}
-	for i := 0; i < 200; i++ {
+	for i := 0; i < 100; i++ {
 		set[rapid.IntRange(0, n-1).Draw(rt, "cut")] = true
 	}
 	var out []int
@@ -84,7 +88,7 @@ func decodeTypedCompressed(stream []byte, rev int, cols []colSpec, auto bool) er
 func TestC07BlockCuts(t *testing.T) {
 	st := stats.G()
 	rapid.Check(t, func(rt *rapid.T) {
-		cols, rows := drawBlock(rt, 3)
+		cols, rows := drawBlockWide(rt, 3)
 		rev := rapid.SampledFrom(blockRevs).Draw(rt, "rev")
 		_, in := libInput(cols, false)
 		blk := proto.Block{Info: proto.BlockInfo{BucketNum: -1}, Columns: len(in), Rows: rows}
